@@ -20,6 +20,14 @@ def CLONE(x):
     return pickle.dumps(x, 4)
 
 
+def _has_list(v, d=0):
+    if isinstance(v, list):
+        return True
+    if isinstance(v, tuple) and d < 4:
+        return any(_has_list(x, d + 1) for x in v)
+    return False
+
+
 class SimCancelled(BaseException):
     pass
 
@@ -365,6 +373,14 @@ class Sim(object):
         items = [(0, val)]
         if isinstance(val, (tuple, list)):
             items = [(1 + i, x) for i, x in enumerate(val[:30])]
+            if _has_list(val) and not reachable([val])[1:]:
+                # a mutable container of plain values handed to the caller (e.g. the matrices of
+                # JupiterMoons.check_phenomena): it is the caller's from now on, watch it (O1.pool)
+                pool.register(base, val, op['task'], born=op['id'])
+                inf = pool.infoof(val)
+                if inf is not None:
+                    inf.frozen = True
+                self.count('probe.result_container_watched')
         for slot, x in items:
             if kind_of(x) in (None, 'list', 'tuple'):
                 continue
